@@ -73,7 +73,9 @@ def check_rk_state(r, m, M, f, L, t, y, h_req, dT, dY, dtype, case, tol_newton=N
     if tol_newton is not None:
         r.n += 1
         rn = res2 ** 0.5
-        bound = tol_newton + K * e * (1.0 + L) * scale * s
+        # "to the nonlinear-solver tolerance": the level at which the library's solvers themselves call a point a solution,
+        # 10 tol (n + |x|_2) over the n unknown stage slopes x (optimizer.py; C15 holds the solvers to it)
+        bound = 10.0 * tol_newton * (kst.size + float(np.sqrt(np.sum(kst * kst)))) + K * e * (1.0 + L) * scale * s
         if not rn <= bound:
             r.v("C02/implicit-residual/%s" % case["method"], "accepted implicit step has stage equations solved to tolerance" + label,
                 case, observed=dict(residual_norm=rn, tol=tol_newton, dT=float(dTl)), expected="||k - f(...)||_2 < tol")
@@ -96,16 +98,44 @@ def rk_case(case):
     shape = tuple(case["shape"])
     f, L = problems.make_rhs(case["rhs"], shape, case["seed"])
     y = problems.initial_state(shape, dtype, case["seed"])
+    if case.get("yscale") is not None:
+        y = (y * dtype(case["yscale"])).astype(dtype)
     t = val(case["t"], dtype); h = val(case["h"], dtype)
     probe = M(shape, dtype=np.dtype(dtype))
     implicit = bool(probe.is_implicit)
     rhs = de.DiffRHS(f)
     if implicit:
         tolv = {"float32": 1e-4, "float64": 1e-9, "longdouble": 1e-12}[case["dtype"]]
-        m = M(shape, dtype=np.dtype(dtype), rtol=dtype(tolv), atol=dtype(tolv))
+        rt, at = case.get("tols") or (tolv, tolv)
+        m = M(shape, dtype=np.dtype(dtype), rtol=dtype(rt), atol=dtype(at))
     else:
         m = M(shape, dtype=np.dtype(dtype), rtol=dtype(1e30) if dtype != np.float32 else dtype(1e30), atol=dtype(1e30))
     tcur, ycur = t, y.copy()
+    sc = None
+    if implicit and case.get("tols"):
+        # the solver seam, answers untouched: which tolerance is each attempt of the step asked to meet?
+        import desolver.utilities.optimizer as opt
+        sc = Scripted("", "T"); sc.real = opt.nonlinear_roots; opt.nonlinear_roots = sc
+    try:
+        return _rk_calls(r, de, m, M, rhs, f, L, t, y, h, tcur, ycur, dtype, shape, implicit, case, sc)
+    finally:
+        if sc is not None:
+            opt.nonlinear_roots = sc.real
+
+
+def _asked(r, sc, tn, dtype, case, call):
+    """every attempt of the call just made asked the solver for the tolerance of the state the step starts from (or a tighter one)"""
+    if sc is None:
+        return
+    log, sc.log = sc.log, []
+    r.n += 1
+    worst = max([t_ for (_, _, _, t_) in log] or [0.0])
+    if worst > tn * (1 + 16 * eps_of(dtype)):
+        r.v("C02/asked-tolerance/%s" % case["method"], "each attempt solves the stage equations to the tolerance of the state the step starts from",
+            dict(case, call=call), observed=dict(asked=[t_ for (_, _, _, t_) in log], tolerance_of_start_state=tn), expected="asked <= 0.5 (atol + rtol max|y|)")
+
+
+def _rk_calls(r, de, m, M, rhs, f, L, t, y, h, tcur, ycur, dtype, shape, implicit, case, sc):
     for call in range(2):          # two chained calls: the second starts from cached end slopes (FSAL path)
         try:
             new_dt, (dT, dY) = m(rhs, tcur, ycur, {}, h)
@@ -127,6 +157,7 @@ def rk_case(case):
             r.v("C02/dT-sign-size/%s" % case["method"], "returned step has the sign of the request and is not longer", dict(case, call=call),
                 observed=float(dT), expected=float(h))
         check_rk_state(r, m, M, f, L, tcur, ycur, h, dT, dY, dtype, dict(case, call=call), tol_newton=tn, label=" (call %d)" % call)
+        _asked(r, sc, tn, dtype, case, call)
         if call == 0:
             tcur = tcur + dT; ycur = ycur + dY            # call 1 continues where call 0 ended (cached end slope is legitimately reused)
         else:
@@ -140,6 +171,7 @@ def rk_case(case):
                 break
             tn = float(np.max(np.abs(m.atol + np.max(np.abs(m.rtol * yrev))))) * 0.5 if implicit else None
             check_rk_state(r, m, M, f, L, trev, yrev, hrev, dTr, dYr, dtype, dict(case, call="rev"), tol_newton=tn, label=" (call rev, -h after +h)")
+            _asked(r, sc, tn, dtype, case, "rev")
             # call 2: the SAME integrator object is asked for a step from an unrelated (t, y) with another h:
             # the property holds for any time, state and step, not only for the continuation of the previous call
             tcur = val(case["t"], dtype) + dtype(0.75); ycur = (y * dtype(0.5) + dtype(0.25)).astype(dtype); h = dtype(-0.5) * val(case["h"], dtype)
@@ -150,6 +182,7 @@ def rk_case(case):
                 break
             tn = float(np.max(np.abs(m.atol + np.max(np.abs(m.rtol * ycur))))) * 0.5 if implicit else None
             check_rk_state(r, m, M, f, L, tcur, ycur, h, dT, dY, dtype, dict(case, call=2), tol_newton=tn, label=" (call 2, unrelated start)")
+            _asked(r, sc, tn, dtype, case, 2)
     # a second object: the right-hand side reads a constant, and the constant CHANGES between a step and its exact continuation (same end point, bitwise):
     # nothing remembered from the first call - an end slope, a first stage - is valid for the second one
     if not implicit and case["rhs"] in ("tanh_net", "linear_t", "logistic") and not isinstance(case["t"], (list, tuple)):
@@ -354,6 +387,16 @@ def build_cases(ctx):
                         if ctx.quick and M.__name__ == "RadauIIA19" and (dname != "float64" or shp == []):
                             continue
                         cases.append(dict(section="rk", method=M.__name__, dtype=dname, rhs=pn, shape=shp, t=0.0, h=h, seed=seed))
+    # a state that is tiny beside its slopes (forced programs), relative tolerance far above the absolute one, steps large enough to be refused
+    # and redone by the adaptive methods: the solve tolerance belongs to the state the step starts from, on every attempt
+    for M in [m_ for m_ in rk if m_ in I.implicit_methods()]:
+        for dname in (("float64",) if ctx.quick else ("float64", "longdouble")):
+            for (pn, shp) in (("linear_t", [3]), ("tanh_net", [3])):
+                for t in (0.25, -1.5):
+                    for h in (0.5, -0.5, 2.0, -2.0):
+                        if ctx.quick and M.__name__ == "RadauIIA19" and not (t == 0.25 and pn == "linear_t"):
+                            continue
+                        cases.append(dict(section="rk", method=M.__name__, dtype=dname, rhs=pn, shape=shp, t=t, h=h, seed=seed, yscale=1e-9, tols=[1e-6, 1e-10]))
     impl = [M for M in rk if M in I.implicit_methods()]
     maxlen = 3 if ctx.quick else 4
     scripts = [""]
